@@ -9,7 +9,6 @@ use std::marker::PhantomData;
 use std::os::fd::IntoRawFd;
 use std::os::unix::io::{AsRawFd, RawFd};
 
-use virtio_queue::QueueT;
 use vmm_sys_util::epoll::{ControlOperation, Epoll, EpollEvent, EventSet};
 use vmm_sys_util::event::EventNotifier;
 
@@ -205,13 +204,16 @@ where
 
         if (device_event as usize) < self.vrings.len() {
             let vring = &self.vrings[device_event as usize];
-            let enabled = vring
-                .read_kick()
+            // Whether the vring gets processed is decided, and the kick consumed, in one step
+            // under the vring lock: checking the state again after the kick has been read would
+            // drop the kick if the vring is stopped or disabled in between.
+            let active = vring
+                .get_ref()
+                .take_kick()
                 .map_err(VringEpollError::HandleEventReadKick)?;
 
-            // If the vring is not enabled, or has been stopped in the meantime, it should not
-            // be processed.
-            if !enabled || !vring.get_ref().get_queue().ready() {
+            // If the vring is not enabled, or not started, it should not be processed.
+            if !active {
                 return Ok(false);
             }
         }
